@@ -1,5 +1,6 @@
 import MpfVerif.Lemmas.Delay
 import MpfVerif.Lemmas.DelayGen
+import MpfVerif.Lemmas.ClockGen
 import MpfVerif.Lemmas.TimerDevice
 /-!
 # C13 — Delays and periodic timers fire exactly when promised, or never
@@ -8,8 +9,8 @@ Property theorems about `Model/Delay.lean` (DelayManager + PeriodicTask), the mo
 against the real code.  All statements are over **every** program table `P` (what callbacks do: re-add, remove,
 run_now, clear, start/cancel periodic tasks …), **every** op sequence (`Op.cmd` calls at any instant, `Op.to` time steps,
 `Op.fire`/`Op.pfire` = the loop's choice among due timers, i.e. every schedule) and every reachable state.
-The Timer device (`timer.py`) has its own model (`Model/TimerDevice.lean`, second half of this file); `Mode.stop` is
-not modelled (harness oracle only).
+The Timer device (`timer.py`) has its own model (`Model/TimerDevice.lean`, second half of this file); `Mode.stop` /
+`_finish_stop` are mode-level operations of the delay model (`MOp`, `never_after_mode_stop`).
 -/
 namespace MpfVerif.C13
 open MpfVerif.Delay
@@ -73,7 +74,8 @@ theorem late_only_while_blocked (P : Nat → List Cmd) (ops : List Op) (s : St) 
 /-- **never_after_cancel.**  If anywhere in a run a handle was cancelled (`remove`, replacement by `add`/`reset` under
 the same name, `clear`, `run_now` — each emits `cancel hid` for the handle it unschedules), then no continuation of that
 run, whatever it does, fires that handle.  (Within one step a `fired` observation is always the first one, so a firing
-cannot follow a cancel inside the same step either.) -/
+cannot follow a cancel inside the same step either.)  The remaining way of the property's text — *its owning mode stops
+first* — is `never_after_mode_stop` below: `Mode.stop()` and `_finish_stop()` are `clear`s at mode-level operations. -/
 theorem never_after_cancel (P : Nat → List Cmd) (ops1 ops2 : List Op) (s0 s1 s2 : St) (tr1 tr2 : List Obs) (hid : Nat)
     (i : Inv s0) (h1 : run P s0 ops1 = some (s1, tr1)) (hc : .cancel hid ∈ tr1)
     (h2 : run P s1 ops2 = some (s2, tr2)) : ∀ hd t, .fired hd t ∈ tr2 → hd.hid ≠ hid := by
@@ -82,6 +84,73 @@ theorem never_after_cancel (P : Nat → List Cmd) (ops1 ops2 : List Op) (s0 s1 s
   have i1 : Inv s1 := run_inv P ops1 s0 (s1, tr1) i h1
   obtain ⟨_, _, c⟩ := fires_once_at_due_from P ops2 s1 (s2, tr2) i1 h2
   exact c hid (mem_firedHids.mpr ⟨hd, t, hf, e⟩) d
+
+/-- **never_after_mode_stop** (`never_after_cancel` for "its owning mode stops first"; `Mode.stop` → `delay.clear()`,
+`_finish_stop` → `delay.clear()` are operations of the model: `MOp.stop` / `MOp.finish`).  Take any history `pre` of a running
+mode's delay manager (calls from anywhere, time, firings, blocked loops — also further `stop`s, which do nothing), then
+`Mode.stop()`, then any history `hold` while a handler **holds the `mode_<name>_stopping` queue** (time passes, handlers
+and callbacks add / reset / run_now on the mode's manager, the loop fires what comes due, `stop()` is called again …), then
+the release of the queue (`_stopped` / `_finish_stop`), then any history `post`.  Then
+(a) no delay that was pending when `stop()` was called ever fires — not while the queue is held, not afterwards;
+(b) no delay added while the mode was stopping and still pending at the release ever fires afterwards;
+(c) right after `stop()` and right after the release the manager holds nothing (`check()` is false for every name), and no
+    time passes in either;
+(d) the whole history is one run of the model (`mflat`), so every other theorem of this file applies to it: in particular a
+    delay added during the hold fires at its due tick exactly once, or is cancelled by the release. -/
+theorem never_after_mode_stop (P : Nat → List Cmd) (pre hold post : List MOp) (s1 s2 s3 s4 s5 : St)
+    (tr1 o1 tr2 o2 tr3 : List Obs) (hpre : mphase 0 pre = 0) (hhold : mphase 1 hold = 1)
+    (h1 : mrun P init 0 pre = some (s1, tr1)) (h2 : mrun P s1 0 [.stop] = some (s2, o1))
+    (h3 : mrun P s2 1 hold = some (s3, tr2)) (h4 : mrun P s3 1 [.finish] = some (s4, o2))
+    (h5 : mrun P s4 2 post = some (s5, tr3)) :
+    (∀ h ∈ s1.live, ∀ hd t, .fired hd t ∈ tr2 ++ o2 ++ tr3 → hd.hid ≠ h.hid) ∧
+    (∀ h ∈ s3.live, ∀ hd t, .fired hd t ∈ tr3 → hd.hid ≠ h.hid) ∧
+    (s2.live = [] ∧ s2.delays = [] ∧ s2.now = s1.now ∧ s4.live = [] ∧ s4.delays = [] ∧ s4.now = s3.now ∧
+      (∀ n, (stepCmd P s2 (.check n)).2.1 = [.checked n false]) ∧
+      (∀ n, (stepCmd P s4 (.check n)).2.1 = [.checked n false])) ∧
+    mrun P init 0 (pre ++ [.stop] ++ hold ++ [.finish] ++ post) = some (s5, tr1 ++ o1 ++ tr2 ++ o2 ++ tr3) := by
+  simp only [mrun] at h1 h2 h3 h4 h5
+  have e2 : mflat 0 [MOp.stop] = [.cmd .clear] := rfl
+  have e4 : mflat 1 [MOp.finish] = [.cmd .clear] := rfl
+  rw [e2] at h2; rw [e4] at h4
+  have i1 : Inv s1 := run_inv P _ init (s1, tr1) init_inv h1
+  have i2 : Inv s2 := run_inv P _ s1 (s2, o1) i1 h2
+  have i3 : Inv s3 := run_inv P _ s2 (s3, tr2) i2 h3
+  obtain ⟨c1, l2, d2, n2⟩ := clear_step P s1 i1 (s2, o1) h2
+  obtain ⟨c3, l4, d4, n4⟩ := clear_step P s3 i3 (s4, o2) h4
+  have h45 := run_append P _ _ s3 s4 s5 o2 tr3 h4 h5
+  have h345 := run_append P _ _ s2 s3 s5 tr2 (o2 ++ tr3) h3 h45
+  refine ⟨?_, ?_, ⟨l2, d2, n2, l4, d4, n4, ?_, ?_⟩, ?_⟩
+  · intro h hh hd t hf
+    have := never_after_cancel P _ _ s1 s2 s5 o1 (tr2 ++ (o2 ++ tr3)) h.hid i1 h2 (c1 h hh) h345 hd t
+      (by simpa [List.append_assoc] using hf)
+    exact this
+  · intro h hh hd t hf
+    exact never_after_cancel P _ _ s3 s4 s5 o2 tr3 h.hid i3 h4 (c3 h hh) h5 hd t hf
+  · intro n; have d2' : s2.delays = [] := d2; simp [stepCmd, d2']
+  · intro n; have d4' : s4.delays = [] := d4; simp [stepCmd, d4']
+  · simp only [mrun]
+    have f1 : mflat 0 (pre ++ [MOp.stop] ++ hold ++ [MOp.finish] ++ post) =
+        mflat 0 pre ++ ([.cmd .clear] ++ (mflat 1 hold ++ ([.cmd .clear] ++ mflat 2 post))) := by
+      simp only [List.append_assoc]
+      rw [mflat_append pre, hpre]
+      show mflat 0 pre ++ (.cmd .clear :: mflat 1 (hold ++ ([MOp.finish] ++ post))) = _
+      rw [mflat_append hold, hhold]
+      rfl
+    rw [f1]
+    have h2345 := run_append P _ _ s1 s2 s5 o1 _ h2 h345
+    have := run_append P _ _ init s1 s5 tr1 _ h1 h2345
+    simpa [List.append_assoc] using this
+
+/-- non-vacuity of `never_after_mode_stop`: delay 0 (2 ticks) is pending when the mode stops; the stopping handler adds delay
+1 (1 tick) and delay 2 (4 ticks) and holds the queue for 2 ticks: delay 1 fires inside the hold (the mode has not stopped
+yet), the release kills delay 2; neither 0 nor 2 ever fires, and firing them is not even enabled. -/
+example :
+    (mrun (fun _ => []) init 0 [.op (.cmd (.add 2 0 0 1)), .op (.to 1), .stop, .op (.cmd (.add 1 1 1 5)),
+      .op (.cmd (.add 4 2 1 6)), .stop, .op (.to 2), .op (.fire 1), .op (.to 3), .finish, .op (.to 9)]).map
+        (fun r => (r.2.filterMap showObs, r.1.live, r.1.delays)) = some (["F 1 1 5 2"], [], []) ∧
+    mphase 0 [.op (.cmd (.add 2 0 0 1)), .op (.to 1)] = 0 ∧ mphase 1 [.op (.cmd (.add 1 1 1 5)), .stop, .op (.to 2)] = 1 ∧
+    mrun (fun _ => []) init 0 [.op (.cmd (.add 2 0 0 1)), .op (.to 1), .stop, .op (.to 2), .op (.fire 0)] = none := by
+  decide
 
 /-- What the cancelling calls cancel, in terms of *names*: after `remove n` no live handle carries name `n`; after
 `clear` there is no live handle of this manager at all; after `add`/`reset` under name `n` the only live handle named `n`
@@ -390,6 +459,109 @@ theorem raising_callbacks_in_source (N : Names) (c : Ctx) (ora : DOracle) (s : D
     rw [callD_eq c ora _ _ _ h1]
     simp [Except.map]
 
+/-! ## the periodic part of the hand model is what `mpf/core/clock.py` says (translated source, regenerated on every check) -/
+
+open MpfVerif.Py in
+/-- **periodic_refines_source.**  `Gen/ClockOps.lean` is `PeriodicTask.__init__/_schedule/_run/cancel/get_next_call_time`
+and `ClockBase.schedule_once/schedule_interval/unschedule` of the current source as data (attributes of the task =
+interpreter state; `loop.time`, `loop.call_at`, `loop.call_later`, `callable`, `event.cancel` and the call of the stored
+callback = logged effects).  In every state `s` of the hand model, with a loop that does not raise and whose `time()` is
+`s.now`:
+(a) `schedule_interval(cb, iv)` creates exactly the task `doPStart` appends (`_last_call = now`, not cancelled) and asks the
+    loop for its first run at `now + iv` = that task's `due`;
+(b) `unschedule(x)` is `x.cancel()`, and `PeriodicTask.cancel()` sets `_canceled` and nothing else — `doPCancel`;
+(c) for a task that is not cancelled, the model's `pfire` step is: move `last` on by one interval (`bumpPer`), count the
+    callback, run the callback's program — and the translated `_run` does the same on the attributes: `_last_call` becomes
+    `_last_call + _interval` **without asking `loop.time()`** (no drift: lateness of this run is not carried forward), the
+    stored callback is called, and afterwards, on the attributes as the callback left them (`k` arbitrary up to cancelling
+    the task: `c2`), the loop is asked for exactly one next run at the *new* `_last_call + _interval` iff the task is not
+    cancelled now — `handSchedule` of the model's record, whose `due` has moved by exactly one interval;
+(d) `_run` of a task that was cancelled while its handle was in the loop calls nothing and asks nothing of the loop (the
+    model's `pfire` is disabled for it); (e) a callback that raises is passed on to the loop and the task is not rescheduled
+    (the model ends the case there: `escaped`); (f) `get_next_call_time()` is the model's `due`;
+(g) `ClockBase.schedule_once(cb, t)` is `loop.call_later(delay=t, callback=cb)` and returns its handle: the effect
+    `clock.schedule_once` that `delay_ops_refine_source` folds is that call. -/
+theorem periodic_refines_source (P : Nat → List Cmd) (c : Ctx) (ora : DOracle) (s : Delay.St)
+    (ho : ClockOraOk ora s.now) :
+    (∀ iv cb : Nat,
+      callD c ora [] Gen.ClockOps.schedule_interval [("callback", .int cb), ("timeout", .flt iv)] =
+        (taskHeap (newPer s.pers.length iv cb s.now), [callableEff (.int cb), timeEff, callAt (s.now + iv)],
+          .ok (.str "obj:PeriodicTask")) ∧
+      (doPStart s iv cb).1.pers = s.pers ++ [newPer s.pers.length iv cb s.now] ∧
+      (newPer s.pers.length iv cb s.now).due = s.now + iv) ∧
+    ((∀ ev H, callD c ora H Gen.ClockOps.unschedule [("event", ev)] = (H, [cancelEff ev], .ok .none)) ∧
+     (∀ p, callD c ora (taskHeap p) Gen.ClockOps.cancel [] = (taskHeap { p with canceled := true }, [], .ok .none)) ∧
+     (∀ pid, (doPCancel s pid).pers = s.pers.map (fun p => if p.pid == pid then { p with canceled := true } else p))) ∧
+    (∀ pid p, s.pers.find? (fun q => q.pid == pid) = some p → p.canceled = false → p.due ≤ s.now →
+      step P s (.pfire pid) = some
+        ((exec P fuel { s with pers := s.pers.map (fun q => if q.pid == pid then bumpPer q else q) } (P p.cb)).1,
+         .tick pid (p.count + 1) s.now ::
+          (exec P fuel { s with pers := s.pers.map (fun q => if q.pid == pid then bumpPer q else q) } (P p.cb)).2) ∧
+      (bumpPer p).due = p.due + p.interval ∧
+      ∀ v k c2, ora (tickEff p.cb) = .ok v → k (taskHeap (bumpPer p)) = taskHeap { bumpPer p with canceled := c2 } →
+        callCb c ora k (taskHeap p) Gen.ClockOps.p_run [] =
+          (taskHeap { bumpPer p with canceled := c2 },
+           tickEff p.cb :: handSchedule { bumpPer p with canceled := c2 }, .ok .none)) ∧
+    (∀ p k, p.canceled = true →
+      callCb c ora k (taskHeap p) Gen.ClockOps.p_run [] =
+        (taskHeap { p with last := p.last + p.interval }, [], .ok .none)) ∧
+    (∀ p k x, p.canceled = false → ora (tickEff p.cb) = .error x →
+      callCb c ora k (taskHeap p) Gen.ClockOps.p_run [] =
+        (taskHeap { p with last := p.last + p.interval }, [tickEff p.cb], .error x)) ∧
+    (∀ p, callD c ora (taskHeap p) Gen.ClockOps.get_next_call_time [] = (taskHeap p, [], .ok (.flt p.due))) ∧
+    (∀ cb t h, ora (callLater t cb) = .ok h →
+      callD c ora [] Gen.ClockOps.schedule_once [("callback", cb), ("timeout", t)] =
+        ([], [callableEff cb, callLater t cb], .ok h)) := by
+  refine ⟨?_, ⟨?_, ?_, ?_⟩, ?_, ?_, ?_, ?_, ?_⟩
+  · intro iv cb
+    refine ⟨?_, rfl, rfl⟩
+    rw [callD_eq c ora _ _ _ (schedule_interval_run c ora s.now ho _ iv cb s.pers.length
+      (by simp [argLocals, List.lookup]) (by simp [argLocals, List.lookup]))]
+    rfl
+  · intro ev H
+    rw [callD_eq c ora _ _ _ (unschedule_run c ora s.now ho H _ ev (by simp [argLocals, List.lookup]))]
+    rfl
+  · intro p
+    rw [callD_eq c ora _ _ _ (cancel_run c ora p _)]
+    rfl
+  · intro pid; rfl
+  · intro pid p hf hc hd
+    refine ⟨?_, ?_, ?_⟩
+    · simp [step, hf, hc, hd, bumpPer]
+    · simp only [bumpPer, Per.due]
+    · intro v k c2 hcb hk
+      rw [callCb_eq c ora k _ _ _ (run_run c ora s.now ho p _ hc v hcb k c2 hk)]
+      rfl
+  · intro p k hc
+    rw [callCb_eq c ora k _ _ _ (run_canceled c ora p _ hc k)]
+    rfl
+  · intro p k x hc hcb
+    rw [callCb_eq c ora k _ _ _ (run_raises c ora p _ hc x hcb k)]
+    rfl
+  · intro p
+    rw [callD_eq c ora _ _ _ (next_call_time_run c ora p _)]
+    rfl
+  · intro cb t h hh
+    rw [callD_eq c ora _ _ _ (schedule_once_run c ora s.now ho _ cb t h (by simp [argLocals, List.lookup])
+      (by simp [argLocals, List.lookup]) hh)]
+    rfl
+
+/- non-vacuity, computed by running the **translated source**: a task with interval 250000 µs created at 1000000 whose
+`_run` is delivered whenever: `_last_call` becomes 1250000 and the next run is asked for at 1500000 — from the attributes
+alone; a callback that cancels the task (`k` sets `_canceled`) leaves nothing scheduled; and `execCb` with a callback that
+leaves the object alone is the plain interpreter. -/
+open MpfVerif.Py in
+example :
+    let ora : DOracle := fun _ => .ok .none
+    let p : Per := ⟨0, 3, 250000, 1000000, 0, 1000000, false⟩
+    let cx : Py.Ctx := ⟨fun _ => .none, fun _ => .none⟩
+    let r1 := callCb cx ora id (taskHeap p) Gen.ClockOps.p_run []
+    let r2 := callCb cx ora (fun H => dictSet H (.str "_canceled") [.bool true]) (taskHeap p) Gen.ClockOps.p_run []
+    let r3 := callD cx ora (taskHeap p) Gen.ClockOps.p_run []
+    r1.1 = taskHeap (bumpPer p) ∧ r1.2.1 = [tickEff 3, callAt 1500000] ∧
+    r2.1 = taskHeap { bumpPer p with canceled := true } ∧ r2.2.1 = [tickEff 3] ∧
+    r3.1 = r1.1 ∧ r3.2.1 = r1.2.1 := by decide
+
 /-- non-vacuity, computed by running the **translated source** (not the hand model): on a dict holding delay 7 (handle 3,
 callback 2, kwargs 5) `add(-250, cb 4, name 7, kwargs 9)` unschedules handle 3, schedules a new handle with timeout
 -0.25 s and stores it; the fold gives one live handle, due *now* (10), named 7.  `Names` exist (`n ↦ n + 1`). -/
@@ -425,8 +597,10 @@ example : run demoP init [.cmd (.add 2 0 0 1), .to 3] = none ∧
 /-! # The Timer device (`Model/TimerDevice.lean`)
 
 All statements hold in every state reachable from a freshly loaded timer (`TimerDevice.init`) by any sequence of
-start/stop/pause/add/subtract/jump/reset/restart/set_tick_interval/change_tick_interval calls, time steps, runs of the
-system timer and of the pause delay (`Timer.reachable`). -/
+start/stop/pause/add/subtract/jump/reset/restart/set_tick_interval/change_tick_interval calls, time steps, **stalls of the
+loop of any length** (`Op.stall d`: the clock moves, nothing runs — every later delivery is late), runs of the system timer
+and of the pause delay (`Timer.reachable`).  `slack` is the time the loop has been blocked since it was last idle; a run
+without stalls has `slack = 0` throughout (`exact_without_stalls`). -/
 
 end MpfVerif.C13
 
@@ -443,13 +617,13 @@ theorem reachable_inv {c : Cfg} {iv : Nat} {s : T} (h : reachable c iv s) : Inv 
 /-- **no_tick_unless_running.**  (a) Whatever the operation, a `tick` event is only ever posted by a timer that is
 running after that operation, carries its current count, and that count is not at/past the end value.  (b) The system
 timer (`Op.clock`) produces anything only while the timer is running.  (c) A timer that is not running and has no
-timed pause pending (stopped, paused without time, completed) stays silent for ever while only time passes: no event at
-all, whatever the clock does. -/
+timed pause pending (stopped, paused without time, completed) stays silent for ever while only time passes — idle or
+stalled loop alike: no event at all, whatever the clock does. -/
 theorem no_tick_unless_running (c : Cfg) (iv : Nat) (s : T) (hs : reachable c iv s) :
     (∀ op r, step c s op = some r → ∀ k, (⟨.tick, k⟩ : Obs) ∈ r.2 →
         r.1.running = true ∧ r.1.ticks = k ∧ done c k = false) ∧
     (∀ r, step c s .clock = some r → s.running = true) ∧
-    (s.running = false → s.resume = none → ∀ ops r, (∀ op ∈ ops, op = .clock ∨ ∃ t, op = .to t) →
+    (s.running = false → s.resume = none → ∀ ops r, (∀ op ∈ ops, op = .clock ∨ (∃ t, op = .to t) ∨ ∃ d, op = .stall d) →
         run c s ops = some r → r.2 = [] ∧ r.1.running = false ∧ r.1.resume = none) := by
   have i := reachable_inv hs
   refine ⟨fun op r h k hk => (step_facts c s op r i h).2 k hk, ?_, ?_⟩
@@ -470,7 +644,7 @@ theorem no_tick_unless_running (c : Cfg) (iv : Nat) (s : T) (hs : reachable c iv
       intro r hops h
       obtain ⟨r1, r2, h1, h2, rfl⟩ := run_cons h
       have key : r1.2 = [] ∧ r1.1.running = false ∧ r1.1.resume = none := by
-        rcases hops op (by simp) with e | ⟨t, e⟩
+        rcases hops op (by simp) with e | ⟨t, e⟩ | ⟨d, e⟩
         · subst e
           simp only [step] at h1
           cases ha : s.arm with
@@ -485,17 +659,92 @@ theorem no_tick_unless_running (c : Cfg) (iv : Nat) (s : T) (hs : reachable c iv
           split at h1
           · injection h1 with h1; subst h1; exact ⟨rfl, hrun, hres⟩
           · cases h1
+        · subst e
+          simp only [step] at h1
+          injection h1 with h1; subst h1; exact ⟨rfl, hrun, hres⟩
       obtain ⟨k1, k2, k3⟩ := key
       obtain ⟨a1, a2, a3⟩ := ih r1.1 k2 k3 r2 (fun o ho => hops o (by simp [ho])) h2
       exact ⟨by simp [k1, a1], a2, a3⟩
 
-/-- **ticks_one_interval_apart.**  When the system timer runs, it is exactly one tick interval after it was armed or
-last ran (`arm`): never early, never late; and if the timer is still running afterwards the next run is again exactly
-one interval later (`arm` becomes the present instant) — so consecutive clock ticks are exactly `iv` apart and the
-first one is `iv` after the (re)start, jump or interval change that armed the timer. -/
+/-- **timer_dies_with_mode** (a device-owned delay manager dies with the mode).  When the owning mode stops,
+`Mode._finish_stop` removes its devices: `Timer.device_removed_from_mode` = `stop()` (`Op.removed`; the control events are
+unregistered, so no further call reaches the timer).  In every reachable state — running, paused with or without a timed
+pause pending on the timer's *own* DelayManager, however late the loop is — the removal posts `stopped` and nothing else,
+leaves the timer not running with no pause end pending, and from then on, whatever time passes, however the loop stalls and
+whatever is still in the loop (the system timer, the pause delay), the timer never posts anything again: the pause delay
+cannot run (`resumeFire` is disabled) and the system timer is silent. -/
+theorem timer_dies_with_mode (c : Cfg) (iv : Nat) (s : T) (hs : reachable c iv s) (r : T × List Obs)
+    (h : step c s .removed = some r) :
+    r.2 = [⟨.stopped, s.ticks⟩] ∧ r.1.running = false ∧ r.1.resume = none ∧ step c r.1 .resumeFire = none ∧
+    ∀ ops r', (∀ op ∈ ops, op = .clock ∨ (∃ t, op = .to t) ∨ ∃ d, op = .stall d) → run c r.1 ops = some r' →
+      r'.2 = [] ∧ r'.1.running = false ∧ r'.1.resume = none ∧ r'.1.ticks = s.ticks := by
+  simp only [step] at h; injection h with h; subst h
+  have hr : reachable c iv (doStop s).1 := by
+    obtain ⟨ops, tr, ho⟩ := hs
+    refine ⟨ops ++ [.removed], tr ++ [⟨.stopped, s.ticks⟩], ?_⟩
+    generalize init c iv = s0 at ho
+    induction ops generalizing s0 tr with
+    | nil => simp [run] at ho; obtain ⟨rfl, rfl⟩ := ho; simp [run, step, doStop]
+    | cons op ops ih =>
+      obtain ⟨r1, r2, e1, e2, e3⟩ := run_cons ho
+      injection e3 with e3a e3b; subst e3a; subst e3b
+      have := ih r2.2 r1.1 e2
+      simp [run, e1, this]
+  refine ⟨rfl, rfl, rfl, by simp [step, doStop], ?_⟩
+  intro ops r' hops hrun
+  obtain ⟨a1, a2, a3⟩ := (no_tick_unless_running c iv (doStop s).1 hr).2.2 rfl rfl ops r' hops hrun
+  refine ⟨a1, a2, a3, ?_⟩
+  clear a1 a2 a3 hr
+  have key : ∀ (ops : List Op) (s0 : T) (r' : T × List Obs), s0.running = false →
+      (∀ op ∈ ops, op = .clock ∨ (∃ t, op = .to t) ∨ ∃ d, op = .stall d) → run c s0 ops = some r' →
+      r'.1.ticks = s0.ticks := by
+    intro ops
+    induction ops with
+    | nil => intro s0 r' _ _ h; simp [run] at h; subst h; rfl
+    | cons op ops ih =>
+      intro s0 r' hnr hops h
+      obtain ⟨r1, r2, e1, e2, rfl⟩ := run_cons h
+      have k1 : r1.1.ticks = s0.ticks ∧ r1.1.running = false := by
+        rcases hops op (by simp) with e | ⟨t, e⟩ | ⟨d, e⟩
+        · subst e
+          simp only [step] at e1
+          cases ha : s0.arm with
+          | none => simp [ha] at e1
+          | some a =>
+            simp only [ha] at e1
+            split at e1
+            · rename_i hc; rw [hnr] at hc; simp at hc
+            · cases e1
+        · subst e
+          simp only [step] at e1
+          split at e1
+          · injection e1 with e1; subst e1; exact ⟨rfl, hnr⟩
+          · cases e1
+        · subst e
+          simp only [step] at e1
+          injection e1 with e1; subst e1; exact ⟨rfl, hnr⟩
+      have := ih r1.1 r2 k1.2 (fun o ho => hops o (by simp [ho])) e2
+      simp only at this ⊢
+      rw [this, k1.1]
+  exact key ops (doStop s).1 r' rfl hops hrun
+
+/-- **ticks_one_interval_apart** (with late deliveries).  When the system timer runs (`Op.clock` is enabled), `arm = some a`
+where `a + iv` is the instant this run was **due**: it is never early (`a + iv ≤ now`), late by at most the time the loop
+has been blocked since it was last idle (`now ≤ a + iv + slack`), hence at exactly `a + iv` when nothing blocked the loop
+(`slack = 0`; `exact_without_stalls`).  The schedule is absolute: `a = t0 + cnt * iv` (`t0` = the (re)start, jump or
+interval change that created the system timer, `cnt` = its runs since), and if the timer does not reach its end value in
+this run the next run is due at exactly `a + iv + iv` **whatever the lateness of this one** (`arm` advances by one interval,
+not to `now`): consecutive clock ticks are due exactly `iv` apart, lateness is not carried forward, and ticks missed
+during a stall are delivered back to back (`late_ticks_catch_up`).  If the run completes the timer, a
+`restart_on_complete` restart creates a fresh schedule at the instant it actually happens. -/
 theorem ticks_one_interval_apart (c : Cfg) (iv : Nat) (s : T) (hs : reachable c iv s) (r : T × List Obs)
     (h : step c s .clock = some r) :
-    ∃ a, s.arm = some a ∧ s.now = a + s.iv ∧ (r.1.running = true → r.1.arm = some s.now ∧ r.1.now = s.now) := by
+    ∃ a, s.arm = some a ∧ a = s.t0 + s.cnt * s.iv ∧ a + s.iv ≤ s.now ∧ s.now ≤ a + s.iv + s.slack ∧
+      (s.slack = 0 → s.now = a + s.iv) ∧ r.1.now = s.now ∧ r.1.slack = s.slack ∧
+      (done c (bump c s.ticks) = false →
+        r.1.running = true ∧ r.1.arm = some (a + s.iv) ∧ r.1.iv = s.iv ∧ r.1.t0 = s.t0 ∧ r.1.cnt = s.cnt + 1) ∧
+      (done c (bump c s.ticks) = true → r.1.running = true →
+        r.1.arm = some s.now ∧ r.1.t0 = s.now ∧ r.1.cnt = 0) := by
   have i := reachable_inv hs
   simp only [step] at h
   cases ha : s.arm with
@@ -504,27 +753,77 @@ theorem ticks_one_interval_apart (c : Cfg) (iv : Nat) (s : T) (hs : reachable c 
     simp only [ha] at h
     split at h
     · rename_i hc
-      have hnow : s.now = a + s.iv := Nat.le_antisymm (i.arm_ge hc.1 a ha) hc.2
-      refine ⟨a, rfl, hnow, ?_⟩
+      have hge := i.arm_ge hc.1 a ha
+      refine ⟨a, rfl, i.arm_abs a ha, hc.2, hge, fun h0 => by omega, ?_⟩
       split at h
       · rename_i hd
         injection h with h; subst h
-        intro hrun
-        by_cases hr : c.roc = true
-        · by_cases hd2 : done c (clip c c.start) = true
-          · simp [doComplete, hr, hd2, doStop] at hrun
-          · simp [doComplete, hr, hd2, doStop]
-        · simp [doComplete, hr, doStop] at hrun
-      · injection h with h; subst h
-        intro _
-        exact ⟨by simp [hnow], rfl⟩
+        refine ⟨?_, ?_, fun hnd => (by rw [hd] at hnd; cases hnd), ?_⟩
+        · by_cases hr : c.roc = true
+          · by_cases hd2 : done c (clip c c.start) = true <;> simp [doComplete, hr, hd2, doStop]
+          · simp [doComplete, hr, doStop]
+        · exact doComplete_slack c _
+        · intro _ hrun
+          by_cases hr : c.roc = true
+          · by_cases hd2 : done c (clip c c.start) = true
+            · simp [doComplete, hr, hd2, doStop] at hrun
+            · simp [doComplete, hr, hd2, doStop]
+          · simp [doComplete, hr, doStop] at hrun
+      · rename_i hd
+        injection h with h; subst h
+        refine ⟨rfl, rfl, fun _ => ⟨hc.1, rfl, rfl, rfl, rfl⟩, fun hd' => absurd hd' hd⟩
     · cases h
 
-/-- **timer_completes_iff_end_value.**  For every operation: (a) a `complete` event is posted only with the count
+/-- **late_ticks_catch_up** (the PeriodicTask catch-up rule on the timer device).  In every reachable state of a running
+timer the system timer is armed at `a = t0 + cnt * iv` and (a) it can run iff its due instant `a + iv` has come — so
+after a stall that covered `k` intervals it can run `k` times at the same instant, each run moving `a` on by one interval
+(`ticks_one_interval_apart`), as long as the end value is not reached; (b) the loop cannot go idle (`Op.to t`) past a due
+run: `t ≤ a + iv` — missed ticks are all delivered before time passes again; (c) a stall changes nothing but the clock:
+no event, same count, same schedule. -/
+theorem late_ticks_catch_up (c : Cfg) (iv : Nat) (s : T) (hs : reachable c iv s) (hrun : s.running = true) :
+    ∃ a, s.arm = some a ∧ a = s.t0 + s.cnt * s.iv ∧
+      ((step c s .clock).isSome = true ↔ a + s.iv ≤ s.now) ∧
+      (∀ t r, step c s (.to t) = some r → t ≤ a + s.iv ∧ r.1.slack = 0) ∧
+      (∀ d r, step c s (.stall d) = some r → r.2 = [] ∧ r.1 = { s with now := s.now + d, slack := s.slack + d }) := by
+  have i := reachable_inv hs
+  obtain ⟨a, ha⟩ := i.run_armed hrun
+  refine ⟨a, ha, i.arm_abs a ha, ?_, ?_, ?_⟩
+  · simp only [step, ha, hrun, true_and]
+    by_cases hle : a + s.iv ≤ s.now
+    · simp only [hle, if_true]
+      constructor
+      · intro _; trivial
+      · intro _; split <;> rfl
+    · simp [hle]
+  · intro t r h
+    simp only [step] at h
+    split at h
+    · rename_i hc
+      injection h with h; subst h
+      have := hc.2.2 hrun
+      rw [ha] at this
+      exact ⟨by simpa using this, rfl⟩
+    · cases h
+  · intro d r h
+    simp only [step] at h; injection h with h; subst h
+    exact ⟨rfl, rfl⟩
+
+/-- **exact_without_stalls.**  In a run from the freshly loaded timer in which nothing ever blocks the loop, `slack` is 0 in
+the final state: the bounds of `ticks_one_interval_apart` / `pause_resumes_once` collapse to equalities — every clock tick
+is at exactly `t0 + (cnt + 1) * iv`, every pause ends at exactly `pause instant + ms`. -/
+theorem exact_without_stalls (c : Cfg) (iv : Nat) (ops : List Op) (s : T) (tr : List Obs)
+    (hn : ∀ op ∈ ops, ∀ d, op ≠ .stall d) (h : run c (init c iv) ops = some (s, tr)) : s.slack = 0 :=
+  run_noStall_slack c ops _ (s, tr) rfl hn h
+
+/-- **timer_completes_iff_end_value** (reachable states include every stall of the loop, i.e. every pattern of late
+deliveries).  For every operation: (a) a `complete` event is posted only with the count
 at/past the end value; (b) afterwards a running timer is never at/past its end value — reaching it always completes;
 (c) the operations that change the count (`add`, `subtract`, `jump`, a clock tick) post `complete` with the new count
 whenever the new count is at/past the end value; (d) after `timer_complete` the timer has stopped, or — with
-`restart_on_complete` and a start value that is not itself at the end — is running again from the (clipped) start value. -/
+`restart_on_complete` and a start value that is not itself at the end — is running again from the (clipped) start value;
+(e) lateness never changes the count: a stall posts nothing and leaves count and `running` as they are, and a late clock
+tick (clause for `.clock`: however late, once per missed interval) counts exactly one — so the count reaches the end value
+after exactly as many clock ticks as without the stall, and completes there. -/
 theorem timer_completes_iff_end_value (c : Cfg) (iv : Nat) (s : T) (hs : reachable c iv s) :
     (∀ op r, step c s op = some r →
         (∀ k, (⟨.complete, k⟩ : Obs) ∈ r.2 → done c k = true) ∧ (r.1.running = true → done c r.1.ticks = false)) ∧
@@ -536,9 +835,12 @@ theorem timer_completes_iff_end_value (c : Cfg) (iv : Nat) (s : T) (hs : reachab
     (∀ t : T, done c t.ticks = true →
         (c.roc = false → (doComplete c t).1.running = false) ∧
         (c.roc = true → done c (clip c c.start) = false →
-          (doComplete c t).1.running = true ∧ (doComplete c t).1.ticks = clip c c.start)) := by
+          (doComplete c t).1.running = true ∧ (doComplete c t).1.ticks = clip c c.start)) ∧
+    ((∀ d r, step c s (.stall d) = some r → r.2 = [] ∧ r.1.ticks = s.ticks ∧ r.1.running = s.running) ∧
+     (∀ r, step c s .clock = some r → done c (bump c s.ticks) = false →
+        r.1.ticks = bump c s.ticks ∧ r.2 = [⟨.tick, bump c s.ticks⟩])) := by
   have i := reachable_inv hs
-  refine ⟨?_, ?_, ?_, ?_, ?_, ?_⟩
+  refine ⟨?_, ?_, ?_, ?_, ?_, ?_, ?_, ?_⟩
   · intro op r h
     exact ⟨(step_facts c s op r i h).1, (step_inv c s op r i h).run_notdone⟩
   · intro v r h hd
@@ -562,16 +864,32 @@ theorem timer_completes_iff_end_value (c : Cfg) (iv : Nat) (s : T) (hs : reachab
       · first | cases h | (rename_i hnd; exact absurd hd hnd) | skip
   · intro t hd
     exact ⟨(doComplete_facts c t hd).2.2.1, (doComplete_facts c t hd).2.2.2⟩
+  · intro d r h
+    simp only [step] at h; injection h with h; subst h
+    exact ⟨rfl, rfl, rfl⟩
+  · intro r h hd
+    simp only [step] at h
+    cases ha : s.arm with
+    | none => simp [ha] at h
+    | some a =>
+      simp only [ha] at h
+      split at h
+      · simp only [hd] at h
+        injection h with h; subst h
+        exact ⟨rfl, rfl⟩
+      · cases h
 
 /-- **pause_resumes_once.**  (a) In every reachable state a running timer has no pause pending, and a pending pause end
-is not overdue.  (b) `pause(ms)` with `ms > 0` leaves the timer not running with the resume scheduled at exactly
-`now + ms`.  (c) When the pause delay runs it is exactly at that instant, the timer is started (unless its count is at
-the end value) and no resume remains: it happens once.  (d) `stop` cancels the pending resume, and without a pending
+is not overdue by more than the time the loop is blocked right now.  (b) `pause(ms)` with `ms > 0` leaves the timer not
+running with the resume scheduled at exactly `now + ms`.  (c) When the pause delay runs it is never before that instant,
+late by at most `slack` (exactly at that instant when nothing blocked the loop), the timer is started (unless its count is
+at the end value) and no resume remains: it happens once.  (d) `stop` cancels the pending resume, and without a pending
 resume the pause delay cannot run. -/
 theorem pause_resumes_once (c : Cfg) (iv : Nat) (s : T) (hs : reachable c iv s) :
-    ((s.running = true → s.resume = none) ∧ (∀ r, s.resume = some r → s.now ≤ r)) ∧
+    ((s.running = true → s.resume = none) ∧ (∀ r, s.resume = some r → s.now ≤ r + s.slack)) ∧
     (∀ ms r, ms ≠ 0 → step c s (.pause ms) = some r → r.1.running = false ∧ r.1.resume = some (s.now + ms)) ∧
-    (∀ r, step c s .resumeFire = some r → s.resume = some s.now ∧ r.1.resume = none ∧
+    (∀ r, step c s .resumeFire = some r →
+        (∃ t, s.resume = some t ∧ t ≤ s.now ∧ s.now ≤ t + s.slack ∧ (s.slack = 0 → t = s.now)) ∧ r.1.resume = none ∧
         (done c s.ticks = false → r.1.running = true ∧ (⟨.started, s.ticks⟩ : Obs) ∈ r.2)) ∧
     (∀ r, step c s .stop = some r → r.1.resume = none ∧ r.1.running = false ∧ step c r.1 .resumeFire = none) := by
   have i := reachable_inv hs
@@ -587,14 +905,13 @@ theorem pause_resumes_once (c : Cfg) (iv : Nat) (s : T) (hs : reachable c iv s) 
       simp only [hr] at h
       split at h
       · rename_i hle
-        have : t = s.now := Nat.le_antisymm hle (i.resume_ge t hr)
-        subst this
+        have hge := i.resume_ge t hr
         injection h with h; subst h
         have hnr : s.running = false := by
           cases hb : s.running with
           | false => rfl
           | true => have := i.run_noresume hb; rw [hr] at this; cases this
-        refine ⟨rfl, ?_, ?_⟩
+        refine ⟨⟨t, rfl, hle, hge, fun h0 => by omega⟩, ?_, ?_⟩
         · simp only [doStart, hnr]
           by_cases hd : done c s.ticks = true
           · simp only [hd, if_true]
@@ -608,5 +925,20 @@ theorem pause_resumes_once (c : Cfg) (iv : Nat) (s : T) (hs : reachable c iv s) 
   · intro r h
     simp only [step] at h; injection h with h; subst h
     simp [doStop, step]
+
+/-- non-vacuity on a concrete history (kernel evaluation): a timer counting up to 5 every 2 ticks; the loop stalls for 5
+ticks at t = 1: the ticks due at 2, 4 and 6 are delivered back to back at 6 (the loop cannot go idle before: `to 7` is
+refused after the first late tick), the next one is on the original schedule at 8; then a timed pause is pending when the
+mode stops: the removal posts `stopped` and the pause end cannot run any more. -/
+example :
+    let c : Cfg := { endv := some 5 }
+    (run c (init c 2) [.start, .to 1, .stall 5, .clock, .clock, .clock, .to 8, .clock, .pause 3, .removed, .to 20]).map
+        (fun r => (r.2.map (fun o => (o.ev, o.ticks)), r.1.running, r.1.resume)) =
+      some ([(.started, 0), (.tick, 0), (.tick, 1), (.tick, 2), (.tick, 3), (.tick, 4), (.paused, 4), (.stopped, 4)],
+            false, none) ∧
+    run c (init c 2) [.start, .to 1, .stall 5, .clock, .to 7] = none ∧
+    run c (init c 2) [.start, .pause 3, .removed, .to 3, .resumeFire] = none ∧
+    reachable c 2 (init c 2) := by
+  refine ⟨by decide, by decide, by decide, [], [], rfl⟩
 
 end MpfVerif.C13.Timer
